@@ -323,6 +323,9 @@ fn run_conc(args: &Args) -> ! {
                 },
                 _ => s.fail(format!("err:new:concurrent:{hname}"), key.clone(), format!("MerkleTree::new failed [{tag}]")),
             }
+            if n <= winter_crypto::concurrent::MIN_CONCURRENT_LEAVES {
+                return; // the library never routes such a tree to the parallel builder
+            }
             match mck::catch(|| winter_crypto::concurrent::build_merkle_nodes::<H>(&leaves)) {
                 Ok(nodes) => {
                     if nodes.len() != n || (1..n).any(|k| nodes[k] != heap[k].unwrap()) {
@@ -335,9 +338,11 @@ fn run_conc(args: &Args) -> ! {
         });
         (s, st)
     }
-    let ts_all = [1usize, 2, 3, 4, 5, 8, 16];
+    // thread counts up to 256 (large servers): the builder derives sub-tree counts from them
+    let ts_all = [1usize, 2, 3, 4, 5, 8, 16, 24, 32, 64, 96, 128, 192, 256];
     let ts_dev: Vec<usize> = if thorough { vec![2, 3, 4, 8, 16] } else { vec![2, 4, 8] };
-    let logs: Vec<u32> = if thorough { vec![10, 11, 12, 13, 14] } else { vec![11, 12] };
+    // trees from 2^8 leaves: whatever MerkleTree::new routes to the parallel builder must be right
+    let logs: Vec<u32> = if thorough { vec![8, 9, 10, 11, 12, 13, 14] } else { vec![8, 9, 10, 11, 12] };
     let mut jobs: Vec<(u8, u32)> = logs.iter().map(|l| (0u8, *l)).collect();
     jobs.push((1, 11));
     let outs = mck::par_map(jobs.len(), |j| match jobs[j].0 {
@@ -360,7 +365,7 @@ fn run_conc(args: &Args) -> ! {
     report.part("conc build under the controlled scheduler: MerkleTree::new and concurrent::build_merkle_nodes vs the reference heap, T in {1,2,3,4,5,8,16}, every region in every alternative order", evals, nontrivial,
         json!({"schedules": sched, "task_executions": tasks, "regions": regions}));
     report.exhaustive = true;
-    report.bounds = json!({"log2_leaves": logs, "thread_counts": ts_all, "deviation_bound": 1, "variant": args.variant});
+    report.bounds = json!({"log2_leaves": logs, "thread_counts": ts_all.to_vec(), "deviation_bound": 1, "variant": args.variant});
     report.rule = "one case per (hasher, tree size, entry point, schedule); non-trivial = all (each compares every internal node)".into();
     report.assumptions = vec!["tasks are atomic (no scheduling point inside a task)".into()];
     report.finish(args)
